@@ -13,23 +13,31 @@ from . import common as C
 from .flow import IntegrateFacts
 
 ID = 'C11'
-TECHNIQUE = ('taint (data + control dependence) over the statement CFG of _integrate, trajectory and should_record: '
-             'the request parameters (range, record step, time step, extra-data flag) and everything derived from '
-             'them must not reach a definition of the integration state, with the loop bound as the one exemption')
+TECHNIQUE = ('taint (data + control dependence) over the statement CFG of _integrate and trajectory, non-'
+             'interference of should_record by abstract evaluation under several requests compared at sample '
+             'points, field-sensitive taint of the recording schedule: the request parameters (range, record '
+             'step, time step, extra-data flag) and everything derived from them must not reach a definition '
+             'of the integration state, with the loop bound as the one exemption')
 DECIDED = [
-    'R1 range, record step, time step and filter flags (and the filter object, the row list, min_step, the recorded '
-    'sample) have no data or control dependence into time, position, velocity, wind, density, Mach reference, drag, '
-    'time step or any solver attribute - except control by the loop\'s own end condition; what crosses into the '
-    'filter is immutable; trajectory() forwards each request parameter to its own slot and stores nothing',
-    'R2 in should_record the sample recorded for a range step depends on the range bookkeeping and the two '
-    'bracketing points only; any definition that depends on the filter mask or the time step is guarded by '
-    '"no range sample was produced" (data is None), so richer requests add rows but never alter a range row',
-    'R3 the recording schedule - next_record_distance, time_of_last_record and the raising of the RANGE flag, in every '
-    'method of the filter - has no data or control dependence on the filter mask (field-sensitive taint from '
-    'self.filter): the distance and time rows of an extra-data request are those of the plain request',
+    'R1 range, record step, time step and filter flags (and the filter object, the row list, min_step, the '
+    'recorded sample) have no data or control dependence into time, position, velocity, wind, density, Mach '
+    "reference, drag, time step or any solver attribute - except control by the loop's own end condition; "
+    'what crosses into the filter is immutable; trajectory() forwards each request parameter to its own slot '
+    'and stores nothing',
+    'R2 should_record evaluated under six requests (plain range card, extra data, time step, both, a sight-'
+    'line crossing pending, a Mach crossing pending) on one symbolic sample: at sample points where a range '
+    'row is due (just beyond and exactly at the record distance) the sample handed back - time, Mach, '
+    'position, velocity - is the same for every request and lies at the record distance, so richer requests '
+    'add rows but never alter a range row',
+    'R3 the recording schedule - next_record_distance, time_of_last_record and the raising of the RANGE flag,'
+    ' in every method of the filter - has no data or control dependence on the filter mask (field-sensitive '
+    'taint from self.filter): the distance and time rows of an extra-data request are those of the plain '
+    'request',
 ]
-NOT_DECIDED = ['equality "to float rounding" of rows computed from different requests (a runtime fact about the '
-               'sequence of integration points)']
+NOT_DECIDED = [
+    'equality "to float rounding" of rows computed from different requests (a runtime fact about the sequence'
+    ' of integration points)',
+]
 
 
 def taint(cfg: CFG, deps: Deps, sources: Set[str], exempt_tests: Set[int]) -> Tuple[Set[str], Dict[str, List[str]]]:
